@@ -6,6 +6,7 @@ for seed in "$@"; do
   for i in 01 02 03 04 05 06 07 08 09 10 11 12 13 14 15 16 17 18 19 20; do
     s=$(date +%s)
     VERIF_SEED=$seed timeout 7200 ./check C$i --tier $tier --seed $seed > sweep-C$i-$seed.out 2>&1; rc=$?
+    if [ $rc -ne 0 ]; then mkdir -p sweep-replays; cp replays/C$i-*-$seed*.json sweep-replays/ 2>/dev/null; fi
     echo "C$i tier=$tier seed=$seed exit=$rc $(( $(date +%s)-s ))s $(grep -E 'VIOLATION|KNOWN' sweep-C$i-$seed.out | head -3 | tr '\n' ' ')"
   done
 done
